@@ -34,6 +34,10 @@ def hcost(ev):
         return 8 + ((ev['len'] + 31) // 32) * max(1, ev['count']) * 8
     if e == 'PbBlock':
         return 8 + max(1, ev['count']) * 8
+    if e == 'PbLink':
+        return 9
+    if e == 'PbXor':
+        return 0.2 + len(ev['us']) / 50.0
     return 0.05
 
 
@@ -154,6 +158,39 @@ def split_incremental(ex):
     out = [ctl]
     for j in range(0, len(blocks), 16):
         out.append([{"e": "Reset", "id": f"{x0['id']}#r{j}"}] + blocks[j:j + 16])
+    return out
+
+
+def split_chain(execs, chk):
+    """PBKDF2 events that carry the interposed PRF chain are re-expressed as PbLink / PbXor events (DESIGN.md 5.4).
+    If the chain does not have the expected shape (a refactoring may change the nested calls) the event is left for
+    interpreted validation when that is affordable, and otherwise only recorded as not validated."""
+    out = []
+    for ex in execs:
+        cur = [e for e in ex if not (e.get('e') == 'Pbkdf2' and 'chain' in e)]
+        out.append(cur)
+        for ev in ex:
+            if ev.get('e') != 'Pbkdf2' or 'chain' not in ev:
+                continue
+            c = max(1, ev['count'])
+            nb = (ev['len'] + 31) // 32
+            ch = ev.pop('chain')
+            if len(ch) != c * nb:
+                if c * nb <= 300:
+                    cur.append(ev)
+                else:
+                    chk.cov.setdefault('pbkdf2_not_validated', []).append(ev['id'])
+                continue
+            cur.append(dict(e='PbHead', id=ev['id'], len=ev['len'], outlen=len(ev['out']), canary=ev['canary']))
+            links = []
+            for b in range(nb):
+                us = ch[b * c:(b + 1) * c]
+                for j, u in enumerate(us):
+                    links.append(dict(e='PbLink', id=f"{ev['id']}#b{b + 1}u{j + 1}", pw=ev['pw'], salt=ev['salt'], i=b + 1, j=j + 1,
+                                      prev=us[j - 1] if j else [], cur=u))
+                links.append(dict(e='PbXor', id=f"{ev['id']}#b{b + 1}x", us=us, count=ev['count'], cur=ev['out'][32 * b:32 * b + 32]))
+            for k in range(0, len(links), 48):
+                out.append([{"e": "Reset", "id": f"{ev['id']}#r{k}"}] + links[k:k + 48])
     return out
 
 
@@ -516,7 +553,7 @@ def check_C13(chk):
 
 # ----------------------------------------------------------------------------- C14
 def check_C14(chk):
-    exe = build_driver(chk.wd, 'prod')
+    exe = build_driver(chk.wd, 'prod', extra='-DTJD_WRAP_HMAC', wraps=('tinyjambu_hmac_finalize',))
     chk.cov['builds'].append('prod')
     anchor_hash(chk, 12)
     grid = tlc_plan(chk.wd, 'Plan_Hash', dict(FAMILY='pbgrid', TIER=chk.tier))
@@ -535,17 +572,22 @@ def check_C14(chk):
         lines.append(f"pbkdf2 id=pre{n} len={n} count=3 pw={pw} salt={salt} pl={'es'[n % 2]}")
     # many blocks: block index 256 = 00 00 01 00
     lines.append(f"pbkdf2 id=long258 len={32 * 257 + 5} count=1 pw={datav(r, 12)} salt={datav(r, 7)}")
-    # larger counts
-    for c in ([100] + ([512, 1000] if chk.thorough else [])):
+    # larger counts: interpreted up to 100; thousands through the interposed PRF chain, link by link
+    for c in ([100] + ([512] if chk.thorough else [])):
         lines.append(f"pbkdf2 id=cnt{c} len=33 count={c} pw={datav(r, 9)} salt={datav(r, 16)}")
+    for c in ([255, 256, 257, 1000] + ([4096, 65537] if chk.thorough else [])):
+        lines.append(f"pbkdf2 id=chain{c} len={33 if c < 5000 else 20} count={c} pw={datav(r, 7 + c % 70)} salt={datav(r, 16)} chain=1")
     groups = chunks(lines, 2)
     execs = run_exec_groups(exe, groups)
-    execs2 = split_long(execs)
+    execs2 = split_long(split_chain(execs, chk))
     judge_h(chk, exe, execs2, None)
+    chk.cov['prf_chain_links_validated'] = sum(1 for ex in execs2 for e in ex if e.get('e') == 'PbLink')
     chk.sample(trim(execs[0][1], 12))
     chk.finish(
         rule="TLC-expanded parameter grid (password lengths incl. 0/63/64/65/100, salt lengths incl. 0/13/60, counts 0..5(17), "
              "output lengths incl. non-multiples of 32), prefix family, a 257-block output with count 1 (block index 256), "
-             "counts 100 (thorough: 512, 1000); every event validated by TLC against RFC 8018's F function over the interpreted "
+             "count 100 interpreted, counts 255/256/257/1000 (thorough: 4096, 65537) through the PRF chain recorded by link-time "
+             "interposition of tinyjambu_hmac_finalize and validated link by link (U_j = HMAC(P, U_(j-1)), T = xor of the U_j); "
+             "every event validated by TLC against RFC 8018's F function over the interpreted "
              "HMAC; outputs longer than 96 bytes are checked block by block (blocks are independent given password, salt, count)",
         assumptions=["PBKDF2 has no independent reference in the repository: the oracle is RFC 8018's text over the anchored HMAC"])
